@@ -38,7 +38,7 @@ func (g *genCtx) comp() string {
 		return r.pick([]string{"..", ".", "", "dest2", "dest", ".wh.a"})
 	}
 	if g.layer && r.chance(1, 10) {
-		return r.pick([]string{".wh.a", ".wh.b", ".wh..wh..opq", ".wh.c"})
+		return r.pick([]string{".wh.a", ".wh.b", ".wh..wh..opq", ".wh.c", ".wh.", ".wh..", ".wh..wh."})
 	}
 	return r.pick(comps)
 }
@@ -492,8 +492,25 @@ func runExtract(cfg *Config, family string) *Result {
 		res.count("model:" + model.Out)
 		res.Compared++
 		if d := diffOutcomes(impl, model); d != "" {
-			res.problem(Problem{Kind: "correspondence", Stream: "extract", Case: caseText, Impl: jr.Out + " " + truncate(jr.Err, 200), Model: model.Out,
-				Msg: d})
+			kind, msg := "correspondence", d
+			// for C05 / C06 the property IS "the result equals the reference model": a differing case is the failing input
+			if family == "untar" && c.Op == "untar" {
+				kind, msg = "oracle", "C05: extraction result differs from the reference merge model: "+d
+			}
+			if family == "layer" && (c.Op == "layer" || c.Op == "layer-chroot") {
+				kind, msg = "oracle", "C06: layer apply differs from the reference whiteout model: "+d
+			}
+			res.problem(Problem{Kind: kind, Stream: "extract", Case: caseText, Impl: jr.Out + " " + truncate(jr.Err, 200), Model: model.Out,
+				Msg: msg})
+		}
+		if (c.Op == "layer" || c.Op == "layer-chroot") && jr.Out == "ok" {
+			var sum int64
+			for _, e := range c.Ents {
+				sum += e.Size
+			}
+			if jr.Size != sum {
+				res.problem(Problem{Kind: "oracle", Stream: "extract", Case: caseText, Msg: fmt.Sprintf("C06: returned size %d, sum of declared sizes %d", jr.Size, sum)})
+			}
 		}
 		if len(c.Ents) >= 2 || jr.Before != jr.After {
 			res.nontrivial(lines[i])
